@@ -69,6 +69,9 @@ def holds(c, asg) -> bool:
         return isinstance(o, D.CLASSES[c[2]])
     if t == "const":
         return bool(c[1])
+    if t == "anp":           # x.p == an(entity(y, y.a > k)): the operand ranges over the sub-query's solutions
+        o = asg[c[1]]
+        return o.p is not None and o.p.a > c[2]
     if t in ("and", "&"):
         return all(holds(s, asg) for s in c[1:])
     if t in ("or", "|"):
@@ -100,6 +103,8 @@ def mentioned(c, acc=None):
         acc.add(c[1])
     elif t == "const":
         pass
+    elif t == "anp":
+        acc.add(c[1])
     else:
         for s in c[1:]:
             mentioned(s, acc)
@@ -183,6 +188,20 @@ def build(c, xs, neg=0, register=True):
         return ~build(c[1], xs, neg + 1, register)
     if t == "const":
         return bool(c[1])       # a plain True / False among the operands of a conjunction
+    if t == "anp":
+        # a nested an() sub-query (over the P objects the Q variable's domain refers to) as a comparison operand
+        from entity_query_language import an, entity, let
+        dom = VAR_DOMAIN.get(id(xs[c[1]]))
+        if dom is None:
+            node = xs[c[1]].p.a > c[2]
+        else:
+            ys = list({id(o.p): o.p for o in dom if getattr(o, "p", None) is not None}.values())
+            y = let(D.P, ys)
+            node = xs[c[1]].p == an(entity(y, y.a > c[2]))
+        if register:
+            from . import monitors
+            monitors.register_leaf(node, c, neg % 2, list(xs), _holds_for_monitor)
+        return node
     if t == "cmp":
         node = OPS[c[1]](bval(c[2], xs), bval(c[3], xs))
     elif t == "in":
@@ -214,6 +233,8 @@ def _holds_for_monitor(leaf, asg):
 
 
 # ------------------------------------------------------------------------------------------------ random generation
+VAR_DOMAIN = {}      # id(variable) -> its domain list, recorded by harness.declare (for leaves that build sub-queries)
+
 DEFAULT_OPTS = dict(neg=True, preds=True, member=True, calls=True, index=True, spell=True, objcmp=True, strings=True,
                     lit_lo=0, lit_hi=4, p_not=0.18, p_leaf=0.25, nary=True, falsy=False)
 
@@ -289,6 +310,11 @@ def gen_leaf(rng, kinds, o):
             l = gen_num(rng, kinds, o, allow_lit=False)
         return ["cmp", rng.choice(list(OPS)), l, r]
     if k < 0.55 and o["objcmp"]:
+        qs_ = [i for i, kd in enumerate(kinds) if kd == "Q"]
+        # (off by default: a sub-query operand brings a variable of its own, under or_/not_ and for multiplicities that is not
+        #  the plain condition vocabulary of C01-C03; C15 and eqlmon/ix.py own nested queries)
+        if qs_ and o.get("subq", False) and rng.random() < 0.25:
+            return ["anp", rng.choice(qs_), rng.randint(0, 3)]
         return ["cmp", rng.choice(["==", "!="]), gen_obj(rng, kinds), gen_obj(rng, kinds)]
     if k < 0.70 and o["member"]:
         vi = rng.randrange(len(kinds))
